@@ -19,6 +19,7 @@
 package main
 
 import (
+	"encoding/json"
 	"context"
 	"fmt"
 	"runtime/debug"
@@ -532,7 +533,9 @@ func main() {
 				return enterResult{}, err
 			}
 			r, _ := enter(s, cls, st)
-			memo[key] = freshVal{r, nil}
+			if rb, _ := json.Marshal(r); !strings.Contains(string(rb), "context deadline exceeded") { // a Lua wall-clock timeout is not memoised
+				memo[key] = freshVal{r, nil}
+			}
 			return r, nil
 		}
 		w.Run(in, func() (out interface{}, err error) {
